@@ -45,6 +45,13 @@ def build(spec):
         return p
     if kind == "many_domains":  # number of shared domains around 2^16
         return Problem([(0, 0)] * spec["n"] + [(0, 1)])
+    if kind == "many_domains_decided":
+        # two decision variables, then constants (data of the instance stated as instantiated variables) up to around
+        # 2^16 shared domains; the LAST constant (value 3) bounds x0 + x1.  The caller names its decision domains.
+        n = spec["n"]
+        p = Problem([(0, 3), (0, 3)] + [(0, 0)] * (n - 3) + [(3, 3)])
+        p.add_propagator(([0, 1, n - 1], P.ALG_AFFINE_LEQ, [1, 1, -1, 0]))
+        return p
     if kind == "many_types":  # registered constraint types around 2^8
         from nucs.propagators.dummy_propagator import compute_domains_dummy, get_complexity_dummy, get_triggers_dummy
 
@@ -69,6 +76,8 @@ def solve(spec, height):
         kw["dom_heuristic_params"] = [[1 if v == 1 else 2 for v in range(w)] for d in range(n)]  # an interior value is cheapest
     if spec.get("workers"):
         return solve_mp(spec, p, height, kw)
+    if spec.get("decision") is not None:
+        kw["decision_domains"] = list(spec["decision"])
     s = BacktrackSolver(p, consistency_alg_idx=spec.get("cons", 0), var_heuristic_idx=spec.get("var_h", 0),
                         dom_heuristic_idx=spec.get("dom_h", 0), stack_max_height=height, log_level="ERROR", **kw)
     out = []
